@@ -55,10 +55,58 @@ def f15_witness():
     return Node('items', (), [Node('tile', (2,), [src])])
 
 
+def source_history(ld, r, count):
+    """len / indexing / iteration of a dataset stay in agreement after the CALLER changes the container it was built from
+    (adds, removes, reorders entries): the dataset keeps its own structure in every immutability mode"""
+    fails = []
+    for _ in range(count):
+        n = r.randint(0, 5)
+        mode = r.choice(['pickle', 'copy', 'wu'])
+        keyed = mode != 'wu' and r.random() < 0.6
+        cont = {f'k{i}': [i] for i in range(n)} if keyed else [[i] for i in range(n)]
+        try:
+            ds = ld.new(cont, immutable_warranty=mode) if mode != 'wu' else ld.core.from_list(cont, 'wu')
+        except Exception:
+            continue
+        stack = r.choice(['plain', 'map', 'items', 'concat', 'batch'])
+        top = ds if stack == 'plain' else ds.map(lambda x: x) if stack == 'map' else ds.items() if stack == 'items' and keyed else \
+            ds.concatenate(ds.map(lambda x: x)) if stack == 'concat' and not keyed else ds.batch(2) if stack == 'batch' else ds
+
+        def view():
+            try:
+                return (len(top), [repr(x) for x in top], [repr(top[i]) for i in range(-len(top), len(top))])
+            except Exception as e:
+                return ('raised', type(e).__name__)
+        before = view()
+        what = r.choice(['add', 'remove', 'clear', 'reorder'])
+        if keyed:
+            if what == 'add': cont['zz9'] = [99]
+            elif what == 'remove' and cont: cont.pop(next(iter(cont)))
+            elif what == 'clear': cont.clear()
+            else:
+                items = list(cont.items())[::-1]; cont.clear(); cont.update(items)
+        else:
+            if what == 'add': cont.append([99])
+            elif what == 'remove' and cont: cont.pop(0)
+            elif what == 'clear': cont.clear()
+            else: cont.reverse()
+        after = view()
+        if after != before:
+            fails.append(dict(kind='history', summary=f'new({"dict" if keyed else "list"} of {n}, {mode!r}) [{stack}]: after the caller did "{what}" on its own container the dataset changed: '
+                                                      f'len / iteration / indexing {before} -> {after}'[:800], config=dict(n=n, mode=mode, keyed=keyed, what=what, stack=stack)))
+    return fails
+
+
 def run(tier):
     # the known finding F15 is replayed on every run (its witness is the first case)
-    return model_a.run_a('C02', tier, WANT, n_quick=1500, n_thorough=40000, direct=direct,
-                         extra_nodes=[f15_witness()])
+    res = model_a.run_a('C02', tier, WANT, n_quick=1500, n_thorough=40000, direct=direct,
+                        extra_nodes=[f15_witness()])
+    from .. import common
+    ld = common.import_impl()
+    sh = source_history(ld, common.rng_for('C02-src'), 200 if tier == 'quick' else 3000)
+    res['failures'] += sh
+    res['coverage']['source_container_histories'] = 200 if tier == 'quick' else 3000
+    return res
 
 
 def replay(payload):
